@@ -83,12 +83,22 @@ static int validate_checksums(zckCtx *zck, zck_log_type bad_checksums) {
             return 0;
 
         size_t rlen = 0;
+        bool short_read = false;
         while(rlen < idx->comp_length) {
             size_t rsize = BUF_SIZE;
             if(BUF_SIZE > idx->comp_length - rlen)
                 rsize = idx->comp_length - rlen;
-            if(read_data(zck, buf, rsize) != rsize)
+            ssize_t rb = read_data(zck, buf, rsize);
+            if(rb < 0)
+                return 0;
+            if((size_t)rb != rsize) {
+                /* The file ends inside (or before) this chunk, so the chunk
+                 * can't be valid; don't hash stale buffer contents and don't
+                 * keep looping over bytes that aren't there */
                 zck_log(ZCK_LOG_DEBUG, "No more data");
+                short_read = true;
+                break;
+            }
             if(!hash_update(zck, &(zck->check_chunk_hash), buf, rsize))
                 return 0;
             if(!zck->has_uncompressed_source) {
@@ -96,6 +106,13 @@ static int validate_checksums(zckCtx *zck, zck_log_type bad_checksums) {
                     return 0;
             }
             rlen += rsize;
+        }
+        if(short_read) {
+            idx->valid = -1;
+            all_good = false;
+            if(zck->header_only)
+                break;
+            continue;
         }
         int valid_chunk = validate_chunk(idx, bad_checksums);
         if(!valid_chunk)
